@@ -669,7 +669,7 @@ Print Assumptions C09_newblock_refines_model.
    model step and Sim holds again; hence for every number n of allocations (pvNewBlock calls) on a pool with blockCount >= 2 the
    iterated GENERATED function hands out exactly the blocks the hand model hands out, in the same order *)
 Theorem C09_newblock_simulation_step : forall C B A adr, 2 <= C -> adr 0 = 0 -> (forall a b, adr a = adr b -> a = b) ->
-  forall w p hd bf bcnt nx pv nfi, PoolBlkSim.Sim C B A adr w p hd bf bcnt nx nfi ->
+  forall w p hd bf bcnt nx pv nfi, PoolBlkSim.Sim C B A adr w p hd bf bcnt nx nfi -> PoolBlkSim.head_ok C w p ->
   let '(w', (b, i)) := PoolConc.pvNewBlock C w p in
   exists hd2 bf' bcnt' nx' pv',
     Gen_MemPoolBlk.pvNewBlock (adr (PoolConc.fresh w)) B A hd bf bcnt nx pv nfi false =
@@ -680,7 +680,7 @@ Proof. exact PoolBlkSim.sim_step. Qed.
 Print Assumptions C09_newblock_simulation_step.
 
 Theorem C09_newblock_simulation_all_allocations : forall C B A adr, 2 <= C -> adr 0 = 0 -> (forall a b, adr a = adr b -> a = b) ->
-  forall n w p hd bf bcnt nx pv nfi, PoolBlkSim.Sim C B A adr w p hd bf bcnt nx nfi ->
+  forall n w p hd bf bcnt nx pv nfi, PoolBlkSim.Sim C B A adr w p hd bf bcnt nx nfi -> PoolBlkSim.okalloc C n w p ->
   exists hd' bf' bcnt' nx' pv',
     PoolBlkSim.grun B A adr n (PoolConc.fresh w) hd bf bcnt nx pv nfi =
       Some (map (fun bk => Gen_MemPool.pvGetBlock B A (adr (fst bk)) (snd bk)) (fst (PoolBlkSim.mrun C n w p)), (hd', bf', bcnt', nx', pv')) /\
@@ -691,7 +691,7 @@ Print Assumptions C09_newblock_simulation_all_allocations.
 (* Sim holds for the empty pool when the future buffers' cells are pre-initialised *)
 Theorem C09_newblock_simulation_initial : forall C B A adr, adr 0 = 0 -> forall p bf bcnt nx nfi,
   (forall k, 1 <= k -> bf (adr k) = 0 /\ bcnt (adr k) = C /\ nx (adr k) = 0 /\
-                       forall j, nfi (Gen_MemPool.pvGetBlock B A (adr k) j) = PoolBlkSim.chainv C j) ->
+                       forall j, 0 <= j < C -> nfi (Gen_MemPool.pvGetBlock B A (adr k) j) = PoolBlkSim.chainv C j) ->
   PoolBlkSim.Sim C B A adr PoolConc.empty_world p 0 bf bcnt nx nfi.
 Proof. exact PoolBlkSim.sim_init. Qed.
 Print Assumptions C09_newblock_simulation_initial.
@@ -700,9 +700,10 @@ Print Assumptions C09_newblock_simulation_initial.
    neither 1 nor blockCount (no pvMoveBufferToHead, no pvDeleteBuffer); block addresses of different (buffer, index) pairs distinct.
    One generated step = one PoolConc.pvDeleteBlock step and Sim holds again *)
 Theorem C09_deleteblock_simulation_step_partial : forall C B A adr, (forall a b, adr a = adr b -> a = b) ->
-  (forall b j b' j', Gen_MemPool.pvGetBlock B A (adr b) j = Gen_MemPool.pvGetBlock B A (adr b') j' -> b = b' /\ j = j') ->
+  (forall b j b' j', 0 <= j < C -> 0 <= j' < C ->
+     Gen_MemPool.pvGetBlock B A (adr b) j = Gen_MemPool.pvGetBlock B A (adr b') j' -> b = b' /\ j = j') ->
   forall w p hd bf bcnt nx pv nfi b j, PoolBlkSim.Sim C B A adr w p hd bf bcnt nx nfi ->
-  0 < b < PoolConc.fresh w ->
+  0 < b < PoolConc.fresh w -> 0 <= j < C ->
   let c1 := PoolConc.fc w b + 1 in
   0 <= c1 < 2 ^ 63 -> c1 <> 1 -> c1 <> C ->
   exists bf' bcnt' nfi',
@@ -715,7 +716,8 @@ Print Assumptions C09_deleteblock_simulation_step_partial.
 (* Allocate / Deallocate scripts on one pool (cache off) whose deallocations are all of that kind (okrun, evaluated on the model run):
    the iterated GENERATED pvNewBlock / pvDeleteBlock3 complete normally, hand out exactly the model's blocks, and Sim holds at the end *)
 Theorem C09_alloc_dealloc_simulation_partial : forall C B A adr, (forall a b, adr a = adr b -> a = b) ->
-  (forall b j b' j', Gen_MemPool.pvGetBlock B A (adr b) j = Gen_MemPool.pvGetBlock B A (adr b') j' -> b = b' /\ j = j') ->
+  (forall b j b' j', 0 <= j < C -> 0 <= j' < C ->
+     Gen_MemPool.pvGetBlock B A (adr b) j = Gen_MemPool.pvGetBlock B A (adr b') j' -> b = b' /\ j = j') ->
   2 <= C -> adr 0 = 0 ->
   forall ops w p hd bf bcnt nx pv nfi, PoolBlkSim.Sim C B A adr w p hd bf bcnt nx nfi -> PoolDelSim.okrun C ops w p ->
   exists hd' bf' bcnt' nx' pv' nfi',
@@ -724,6 +726,20 @@ Theorem C09_alloc_dealloc_simulation_partial : forall C B A adr, (forall a b, ad
     PoolBlkSim.Sim C B A adr (snd (PoolDelSim.mrun2 C ops w p)) p hd' bf' bcnt' nx' nfi'.
 Proof. exact PoolDelSim.sim_run_alloc_dealloc_partial. Qed.
 Print Assumptions C09_alloc_dealloc_simulation_partial.
+
+(* NON-VACUITY of the simulation theorems: all their hypotheses (injective adr, adr 0 = 0, distinct block addresses for valid indexes,
+   blockCount >= 2, Sim, head_ok) hold together for a concrete pool - blockCount 4, blockSize 8, alignment 8, buffer k at address 1024 k -
+   in its initial state.  (The indexes in Sim and in the block-address hypothesis range over 0 <= j < blockCount; the versions of the
+   previous two rounds quantified over all integers j, which no address map satisfies - corrected in this round.) *)
+Theorem C09_simulation_hypotheses_satisfiable :
+  exists C B A adr,
+    (forall a b, adr a = adr b -> a = b) /\
+    (forall b j b' j', 0 <= j < C -> 0 <= j' < C ->
+       Gen_MemPool.pvGetBlock B A (adr b) j = Gen_MemPool.pvGetBlock B A (adr b') j' -> b = b' /\ j = j') /\
+    2 <= C /\ adr 0 = 0 /\
+    exists p bf bcnt nx nfi, PoolBlkSim.Sim C B A adr PoolConc.empty_world p 0 bf bcnt nx nfi /\ PoolBlkSim.head_ok C PoolConc.empty_world p.
+Proof. exact PoolDelSim.sim_hypotheses_satisfiable. Qed.
+Print Assumptions C09_simulation_hypotheses_satisfiable.
 
 (* the hypotheses Rel / PreInit of the refinement theorem are satisfiable (initial world, cells of buffer 1 pre-initialised) *)
 Theorem C09_newblock_refinement_hypotheses_satisfiable : forall C B A,
